@@ -39,6 +39,7 @@ REQUIRED_THEOREMS = [
     "C05_detailed_balance", "C05_detailed_balance_purif", "C05_invariant", "C05_invariant_purif", "C05_k_step_law",
     "C05_k_step_law_purif", "C05_invariant_k", "C05_invariant_k_purif", "C05_continue", "C05_values_shape",
     "C05_overwrite", "C05_run_law", "C05_batch_law", "C05_batch_law_purif",
+    "C05_overwrite_flag", "C05_overwrite_any_form",   # round 4: `overwrite` as the object the caller passed
 ]
 EXTRA_TRUSTED = [
     "torch.bernoulli(p) draws independent Bernoulli(p) bits (the replay replaces it by a recorder; the thorough tier "
@@ -51,7 +52,7 @@ TH = {
     "inv": "C05_invariant(_purif)",
     "replay": "C05_run_law + C05_kernel(_purif) + C05_batch_law(_purif)",
     "final": "C05_run_law + C05_k_step_law(_purif) + C05_values_shape",
-    "buf": "C05_overwrite",
+    "buf": "C05_overwrite, C05_overwrite_flag (the object passed as `overwrite` counts by its truth value)",
     "cont": "C05_continue, C05_continue_batch",
 }
 RULE = ("model case = (state kind pos/cplx/dens, n<=4, h<=4, a<=3, scale in {0.1,1,3,10,30}, all parameters scale*N(0,1), all biases "
@@ -60,16 +61,21 @@ RULE = ("model case = (state kind pos/cplx/dens, n<=4, h<=4, a<=3, scale in {0.1
         "vector / no initial state, overwrite, dtype, draw mode faithful|coin, draw seed, optional continuation call); non-trivial iff "
         "some hidden bias != 0 and (for replays) k >= 1; distinct by hash of the case; part (d): history case = (model, 1-2 writes "
         "(mode in copy_|assign|zero_add|nograd_copy|reinit+copy_|reinit+assign, new parameters of scale 0.1..10), 3 sampling specs): "
-        "parts (a),(b) before and after every write on the same state object with the same argument tensors")
+        "parts (a),(b) before and after every write on the same state object with the same argument tensors; every `overwrite` argument "
+        "(first call, continuation call) is handed over as one of {bool singleton, int 1/0, numpy.bool_, result of a numpy comparison, "
+        "0-dim numpy bool array, 0-dim torch.bool tensor}, by keyword or positionally (sample(k, num_samples, initial_state, overwrite) / "
+        "gibbs_steps(k, initial_state, overwrite)); the states are constructed with gpu=<falsy object of one of these forms>")
 
 
 # ------------------------------------------------------------------ helpers
-def build(kind, n, h, a, am, ph):
+def build(kind, n, h, a, am, ph, gpuf=None):
+    """`gpuf`: flag form of the (falsy) object handed as `gpu=` to the constructors (None: the singleton False)"""
+    gpu = qc.flag_value(qc.flag_desc(gpuf, False))
     if kind == "pos":
-        return qc.make_positive(n, h, am)
+        return qc.make_positive(n, h, am, gpu=gpu)
     if kind == "cplx":
-        return qc.make_complex(n, h, am, ph)
-    return qc.make_density(n, h, a, am, ph)
+        return qc.make_complex(n, h, am, ph, gpu=gpu)
+    return qc.make_density(n, h, a, am, ph, gpu=gpu)
 
 
 def mkind(kind):
@@ -300,7 +306,7 @@ def reported_pi(st, n, inp=None):
 # ------------------------------------------------------------------ part (a)
 def cond_case(ctx, case):
     kind, n, h, a, scale, am, ph = (case[k] for k in ("kind", "n", "h", "a", "scale", "am", "ph"))
-    st = build(kind, n, h, a, am, ph)
+    st = build(kind, n, h, a, am, ph, case.get("gpuf"))
     dens = kind == "dens"
     nontriv = any(x != 0 for x in am["c"]) and any(x != 0 for x in am["b"])
     ctx.case({k: case[k] for k in ("part", "kind", "n", "h", "a", "am")}, nontrivial=nontriv,
@@ -545,9 +551,14 @@ def consistency_oracle(ctx, st, kind, n, h, a, start_rows, calls, vector, case, 
     return v
 
 
-def run_call(ctx, st, kind, n, h, a, am, k, start_rows, vector, overwrite, dtype, mode, dseed, case, tag, api, init=None):
+def run_call(ctx, st, kind, n, h, a, am, k, start_rows, vector, overwrite, dtype, mode, dseed, case, tag, api, init=None, owf=None):
     """one recorded call of sample/gibbs_steps + its replay on the model. returns (result tensor, calls, final rows).
-    `init`: a start tensor built earlier (holding `start_rows`) that is handed to the implementation AGAIN"""
+    `init`: a start tensor built earlier (holding `start_rows`) that is handed to the implementation AGAIN.
+    `owf`: flag form {"form", "pos"} of the `overwrite` argument: the truth value `overwrite` is handed over as that kind of object
+    (bool singleton / int / numpy bool / result of a numpy comparison / 0-dim bool array / 0-dim bool tensor), by keyword or positionally"""
+    ow_desc = qc.flag_desc(owf, overwrite)
+    ow_obj = qc.flag_value(ow_desc)
+    ctx.count(f"overwrite given as {ow_desc['form']}:{'positional' if qc.flag_pos(owf) else 'keyword'}")
     B = len(start_rows) if start_rows is not None else case["B"]
     tdt = torch.double if dtype == "double" else torch.float32
     if start_rows is not None:
@@ -561,9 +572,9 @@ def run_call(ctx, st, kind, n, h, a, am, k, start_rows, vector, overwrite, dtype
         if init is None:
             res = st.sample(k, num_samples=B)
         elif api == "sample":
-            res = st.sample(k, initial_state=init, overwrite=overwrite)
+            res = st.sample(k, B, init, ow_obj) if qc.flag_pos(owf) else st.sample(k, initial_state=init, overwrite=ow_obj)
         else:
-            res = st.rbm_am.gibbs_steps(k, init, overwrite=overwrite)
+            res = st.rbm_am.gibbs_steps(k, init, ow_obj) if qc.flag_pos(owf) else st.rbm_am.gibbs_steps(k, init, overwrite=ow_obj)
     calls = canonical_calls(st, kind, n, h, a, rec.calls, B, start_rows, fresh=init is None)
     sizes = step_sizes(kind, n, h, a)
     exp_shapes = ([[B, n]] if init is None else []) + [([m] if vector else [B, m]) for _ in range(k) for m in sizes]
@@ -590,11 +601,13 @@ def run_call(ctx, st, kind, n, h, a, am, k, start_rows, vector, overwrite, dtype
         if not overwrite or dtype != "double":
             okb = (not same) and bool(torch.equal(init, before)) and init.data_ptr() == ptr
             ctx.oracle(f"{tag}: caller's start state untouched, result is another object", okb, case,
-                       detail={"same_object": same, "before": before.tolist(), "after": init.tolist()}, sig=f"{kind}/overwrite-false", theorem="C05_overwrite")
+                       detail={"same_object": same, "before": before.tolist(), "after": init.tolist(), "overwrite_given_as": repr(ow_obj)},
+                       sig=f"{kind}/overwrite-false", theorem="C05_overwrite, C05_overwrite_flag")
         else:
             okb = same and (res is init) and bool(torch.equal(init.reshape(B, n), torch.from_numpy(final)))
             ctx.oracle(f"{tag}: overwrite=True updates the caller's tensor in place and returns it", okb, case,
-                       detail={"same_object": same, "after": init.tolist(), "result": final.tolist()}, sig=f"{kind}/overwrite-true", theorem="C05_overwrite")
+                       detail={"same_object": same, "after": init.tolist(), "result": final.tolist(), "overwrite_given_as": repr(ow_obj)},
+                       sig=f"{kind}/overwrite-true", theorem="C05_overwrite, C05_overwrite_flag")
         ctx.count("draws written in place (out= aliases the probability buffer)" if all(c["out"] and c["alias"] for c in calls) else "draws not in place")
     step_calls = calls[1:] if init is None and calls else calls
     chain_start = start_rows if init is not None else (calls[0]["draw"].reshape(B, n).tolist() if calls else None)
@@ -607,7 +620,7 @@ def run_call(ctx, st, kind, n, h, a, am, k, start_rows, vector, overwrite, dtype
         probs = np.concatenate([c["p"] for c in calls]) if calls else np.zeros(0)
         req = {"kind": mkind(kind), "n": n, "h": h, "a": a, "p": qc.pbits(am), "B": B, "k": k, "draws": draws,
                "start": None if init is None else [[int(x) for x in r] for r in start_rows],
-               "overwrite": bool(overwrite), "init_id": 1, "init_native": dtype == "double", "fresh": 2}
+               "overwrite": ow_desc, "init_id": 1, "init_native": dtype == "double", "fresh": 2}   # the OBJECT passed: gibbsCallF
         m = ctx.driver.call("c05.replay", **req)
         if m.get("short"):
             ctx.point(f"{tag}: replay consumes the recording", "property", len(draws), "model needs more draws", case, exact=True,
@@ -630,7 +643,7 @@ def run_call(ctx, st, kind, n, h, a, am, k, start_rows, vector, overwrite, dtype
 
 def replay_case(ctx, case):
     kind, n, h, a, am, ph = (case[k] for k in ("kind", "n", "h", "a", "am", "ph"))
-    st = build(kind, n, h, a, am, ph)
+    st = build(kind, n, h, a, am, ph, case.get("gpuf"))
     replay_body(ctx, st, case, am)
 
 
@@ -650,19 +663,22 @@ def replay_body(ctx, st, case, am, inp=None, ikey=None):
     init = None
     if inp is not None and start is not None and not ow and dtype == "double":
         init = inp.get(ikey, start[0] if vector else start, n, vector=vector)
-    res, calls, final = run_call(ctx, st, kind, n, h, a, am, k, start, vector, ow, dtype, mode, dseed, case, "call1", case["api"], init=init)
+    res, calls, final = run_call(ctx, st, kind, n, h, a, am, k, start, vector, ow, dtype, mode, dseed, case, "call1", case["api"], init=init,
+                                 owf=case.get("owf"))
     k2 = case.get("k2")
     if k2 is not None:
         # chain continued across calls: start the second call from the tensor the first one returned
         ctx.count("continued")
         before2 = res.clone()
         ptr2 = res.data_ptr()
+        ow2 = qc.flag_value(qc.flag_desc(case.get("owf2"), case["overwrite2"]))
+        ctx.count(f"overwrite given as {qc.flag_desc(case.get('owf2'), False)['form']}:{'positional' if qc.flag_pos(case.get('owf2')) else 'keyword'}")
         with Recorder(dseed + 1, mode) as rec2:
-            res2 = st.sample(k2, initial_state=res, overwrite=case["overwrite2"])
+            res2 = st.sample(k2, case["B"], res, ow2) if qc.flag_pos(case.get("owf2")) else st.sample(k2, initial_state=res, overwrite=ow2)
         fin2 = res2.detach().numpy().reshape(case["B"], n).copy()
         same2 = res2.data_ptr() == ptr2
         ctx.oracle("call2: buffer semantics on the continued chain", bool(same2 == case["overwrite2"] and (case["overwrite2"] or torch.equal(res, before2))), case,
-                   sig=f"{kind}/continue-buffer", theorem="C05_overwrite")
+                   detail={"overwrite_given_as": repr(ow2), "same_object": bool(same2)}, sig=f"{kind}/continue-buffer", theorem="C05_overwrite, C05_overwrite_flag")
         scripted = bool(calls or rec2.calls) or (k + k2 == 0 and start is not None)  # else: draws not made through torch.bernoulli (aux point above)
         if ctx.driver is not None and scripted and (start is not None or calls):
             chain_start = start if start is not None else calls[0]["draw"].reshape(case["B"], n).tolist()
@@ -689,7 +705,7 @@ def history_case(ctx, case):
     """phase 0: parts (a),(b) on a state built with (am, ph); then for every write: overwrite ALL parameters of the same object and
     evaluate parts (a),(b) again with the SAME argument tensors against the model at the parameters just written"""
     kind, n, h, a, am, ph = (case[k] for k in ("kind", "n", "h", "a", "am", "ph"))
-    st = build(kind, n, h, a, am, ph)
+    st = build(kind, n, h, a, am, ph, case.get("gpuf"))
     writes = case["writes"]
     nontriv = any(x != 0 for x in am["c"]) and all(w["am"]["W"] != am["W"] for w in writes)
     ctx.case({k: case[k] for k in ("part", "kind", "n", "h", "a", "am", "writes", "samples")}, nontrivial=nontriv,
@@ -759,7 +775,9 @@ def c05_thunks(st, case, inp, ams):
 
     def one_pass():
         with Recorder(case["rseed"] % (2 ** 31), "coin") as rec:
-            st.sample(1, initial_state=space, overwrite=False)
+            # overwrite=False in one of the falsy forms (chosen by the case): the shared `space` tensor must stay untouched
+            st.sample(1, initial_state=space, overwrite=qc.flag_value({"form": qc.FLAG_FORMS[case["rseed"] % len(qc.FLAG_FORMS)] if "gpuf" in case else "py",
+                                                                        "value": False}))
         state["calls"] = rec.calls
         return np.concatenate([c["p"] for c in rec.calls]) if rec.calls else np.zeros(0)
 
@@ -827,7 +845,7 @@ def gen_models(ctx, thorough):
             sc = scales if thorough else [ctx.rng.choice(scales[:3]), ctx.rng.choice(scales)]
             for scale in sc:
                 am, ph = rand_model(ctx.rng, kind, n, h, a, scale)
-                yield {"kind": kind, "n": n, "h": h, "a": a, "scale": scale, "am": am, "ph": ph}
+                yield {"kind": kind, "n": n, "h": h, "a": a, "scale": scale, "am": am, "ph": ph, "gpuf": qc.flag_form(ctx.rng, plain=0.4)}
 
 
 def gen_replays(ctx, model, thorough):
@@ -841,6 +859,7 @@ def gen_replays(ctx, model, thorough):
                   "dseed": rng.randrange(2 ** 31), "k2": None, "overwrite2": False})
         c.update(kw)
         c["B"] = kw.get("B", len(c["start"]) if c["start"] is not None else 1)
+        c["owf"], c["owf2"] = qc.flag_form(rng), qc.flag_form(rng)   # the objects handed as `overwrite` (first call / continuation call)
         return c
 
     # every start state as one batch (n <= 3), else a random batch with repeats
@@ -888,6 +907,7 @@ def gen_history(ctx, model, thorough, idx=0):
              "k2": None, "overwrite2": False}
         c.update(kw)
         c["B"] = kw.get("B", len(c["start"]) if c["start"] is not None else 1)
+        c["owf"], c["owf2"] = qc.flag_form(rng), qc.flag_form(rng)
         return c
 
     samples = [spec(k=rng.randrange(1, 4), start=batch, mode=rng.choice(["faithful", "coin"])),
